@@ -1676,6 +1676,23 @@ func (mgr *Manager) convertStreamJob(allConverters []*converters.CachedConverter
 	}
 }
 
+// isNewestVersion reports whether s, read through some view, is the version of
+// the stream that the newest index containing it holds.
+func (mgr *Manager) isNewestVersion(s *index.Stream) bool {
+	for i := len(mgr.indexes) - 1; i >= 0; i-- {
+		cur, err := mgr.indexes[i].StreamByID(s.ID())
+		if err != nil {
+			return false
+		}
+		if cur == nil {
+			continue
+		}
+		return cur.FirstPacket().Equal(s.FirstPacket()) && cur.LastPacket().Equal(s.LastPacket()) &&
+			cur.ClientBytes == s.ClientBytes && cur.ServerBytes == s.ServerBytes
+	}
+	return false
+}
+
 func (mgr *Manager) invalidateConverters(updatedStreams *bitmask.LongBitmask) {
 	for _, converter := range mgr.converters {
 		invalidatedStreams := converter.InvalidateChangedStreams(updatedStreams)
@@ -2680,9 +2697,19 @@ func (c StreamContext) Data(converterName string) ([]index.Data, error) {
 	data, _, _, wasCached, err := converter.Data(c.Stream(), true)
 	// only send event if the data wasn't cached before
 	if err == nil && !wasCached {
+		s := c.Stream()
 		c.v.mgr.jobs <- func() {
-			converter, ok := c.v.mgr.converters[converterName]
+			mgr := c.v.mgr
+			converter, ok := mgr.converters[converterName]
 			if ok {
+				// the view may be older than the newest data of the stream:
+				// output of an old version must not stay in the cache
+				if !mgr.isNewestVersion(s) {
+					changed := bitmask.LongBitmask{}
+					changed.Set(uint(s.ID()))
+					mgr.invalidateConverters(&changed)
+					mgr.startConverterJobIfNeeded()
+				}
 				c.v.mgr.event(Event{
 					Type:      "converterCompleted",
 					Converter: converter.Statistics(),
